@@ -30,7 +30,7 @@ ENGINES.append({"name": "Conc", "path": "coq/theories/Conc + coq/gen/SharedWrite
      "kind_free_text": "Gallina model of N goroutines over read-only shared state and of the writer-preferring RWMutex; shared-write facts regenerated from source; harness/cmd/conccheck built with -race"})
 ENGINES.append({"name": "SvgPath", "path": "coq/theories/Svg", "serves_properties": ["C05", "C09"],
      "kind_free_text": "F1 Gallina model of the path-data separator logic (copyNumber/copyFlag) + SVG number grammar lexer as specification; harness/cmd/svgoracle (hooked separator correspondence, independent path interpreter, encoding/xml tree oracle)"})
-ENGINES.append({"name": "JsPrint", "path": "coq/theories/Js/Print*.v + coq/gen/JsTables_gen.v", "serves_properties": ["C01", "C09", "C16"],
+ENGINES.append({"name": "JsPrint", "path": "coq/theories/Js/Print*.v + Rewrite*.v + Stmt*.v + NumLit*.v + StrLit*.v + coq/gen/JsTables_gen.v", "serves_properties": ["C01", "C09", "C16"],
      "kind_free_text": "F2 Gallina model of the expression printer's parenthesis decisions, parametric in the precedence maps (regenerated from js/util.go); ECMA-262 expression grammar as derivation relation; harness/cmd/jsoracle (token correspondence, node vm oracle)"})
 ENGINES.append({"name": "CssVal", "path": "coq/theories/Css", "serves_properties": ["C04", "C16"],
      "kind_free_text": "F2 Gallina model of the four-sides shorthand rewrite + CSS 2.1 box semantics; harness/cmd/cssoracle (exhaustive box correspondence, independent CSS tokenizer/value interpreter as search oracle)"})
@@ -121,7 +121,7 @@ CHECKS = {
     },
     "C01": {
         "engine": "JsPrint", "design_ref": "DESIGN.md section 4 / C01 and section 10",
-        "technique": "Coq proofs: (1) printed tokens derive the stripped tree in the ECMA-262 grammar for all parser-shaped trees, parametric in the regenerated precedence maps and constant guards; (2) the on-the-fly rewrites (optimizeUnaryExpr / optimizeBooleanExpr / optimizeCondExpr, transcribed) preserve value and side effects for every expression, store and interpretation of the abstract operators; token correspondence with the real minifier for both; node vm differential execution as search",
+        "technique": "Coq proofs: (1) printed tokens derive the stripped tree in the ECMA-262 grammar for all parser-shaped trees, parametric in the regenerated precedence maps and constant guards; (2) the on-the-fly expression rewrites preserve value and side effects for every expression, store and interpretation of the abstract operators; (3) the statement optimiser of stmtlist.go preserves the completion and store of every statement list, and the statement printer's tokens parse back (clause-14 grammar, else to nearest if) to the tree it means; (4) numeric literals keep their mathematical value with no int64 overflow, string literals keep their string value and stay valid for the chosen delimiter; token / AST / byte correspondence with the real minifier for all four; node vm differential execution as search",
         "text": ("Theorems (Props/C01.v): the precedence maps and constant guards regenerated from js/util.go / js.go satisfy prec_tables_ok; for every "
                  "expression tree a conforming parser can produce, at every context level, the printer's tokens derive in the ECMA-262 expression grammar "
                  "(own level tables) the same tree with exactly the dropped parentheses removed, incl. the replaced constants true/false/undefined/Infinity; "
@@ -135,13 +135,28 @@ CHECKS = {
                  "(pipeline_output_parses_back), and it evaluates like the input (pipeline_preserves_value_and_effects) — the proof of the middle step "
                  "failed on the pinned code and exposed K119 ((l,!(a&&b))&&f() written as l,!a||!b&&f()), repaired in /repo. Ties: T-gen for maps, guards and "
                  "sites + the extracted print / print_rw must reproduce the token sequence of the real js.Minify on 6,000 operator expressions and 6,000 "
-                 "rewrite-fragment expressions per run (a disagreement is handed to node as a program). PARTIAL: statement-level rewrites, literals, "
-                 "hoisting, dead code, classes etc. are decided by search only: 1,500 generated programs per quick run executed in node 20 (vm) before and "
-                 "after minification under several configurations. 16 defects found were repaired in /repo; 15 remain open (K01, K03-K05, K07, K09, K14, "
-                 "K73-K78, K118)."),
-        "note": ("Partial (printer precedence and expression rewrites proved on the stated fragment; behaviour of everything else searched). Trusted: Coq "
-                 "kernel, translator, extraction, driver, PrintSpec.v as the grammar (unambiguity assumed), RewriteSem.v as the meaning of the fragment, "
-                 "node 20 as reference engine."),
+                 "rewrite-fragment expressions per run (a disagreement is handed to node as a program). "
+                 "STATEMENTS: optimizeStmt / optimizeStmtList (if->expression rewrites, !-swap, both-branches "
+                 "return / throw, else flattening after flow statements, merging into return / throw / if, if-return chains, trailing return) transcribed on "
+                 "if / else, return, throw, break, continue, blocks, empty and expression statements; for EVERY list, store and fuel the optimised list has "
+                 "the same completion and store (statement_optimiser_preserves_behaviour), under two hypotheses shown necessary by counterexamples that "
+                 "are findings on the real code (hasSideEffects trusted: K03, repaired for calls; trailing `return a,b,undefined`: K01, open, pinned by "
+                 "js_test.go); minifyStmt / minifyBlockStmt / endsInIf with the pending semicolon transcribed, and what they write parses back to the "
+                 "intended tree with the intended behaviour (printed_statements_parse_back / _behave; the dangling-else hypothesis else_safe is evaluated on "
+                 "the optimiser's output for every body of the run). Ties: AST of the real optimizeStmtList (hook) on 6,000 parsed lists and tokens of the "
+                 "real js.Minify on ~3,000 function bodies per run. LITERALS: 0b / 0o / 0x / decimal / BigInt literals with separators keep their value, the "
+                 "int64 accumulator never overflows and the decimal text fits the bytes it overwrites (for all literals the guards 65 / 23 / 12 let through); "
+                 "string literals: for every valid literal, either allowTemplate, sloppy and strict mode, the written literal is valid for its delimiter and "
+                 "has the same string value (string_literals_keep_their_value) - validating this statement exposed K122 (a NUL escape before a digit), K09 "
+                 "(a substitution opened by a decoded escape) and K30 (decoded </script>), all repaired. Ties: 6,000 numeric and 20,000 string literals per "
+                 "run through hooks. PARTIAL: loops, declarations, hoisting, classes, renaming interplay, regular expressions, templates with substitutions "
+                 "are decided by search only: 1,500 generated programs per quick run executed in node 20 (vm) before and after minification under several "
+                 "configurations. Repaired in /repo from this work (fix: commits): K02, K03, K06, K08-K13, K37, K38, K74, K75, K77, K78, K114, K117, K119-K122, "
+                 "K125, K126; open: K01, K04, K05, K07, K14, K73, K76, K118."),
+        "note": ("Partial (printer precedence, expression rewrites, statement optimiser / printer and literals proved on the stated fragments; behaviour of "
+                 "everything else searched). Trusted: Coq kernel, translator, extraction, driver, PrintSpec.v / StmtParse.v / StrLitSpec.v / NumLitSpec.v as "
+                 "the grammar and value definitions (expression-grammar unambiguity assumed; the link evt_etoks between statement and expression level is a "
+                 "hypothesis of the statement theorems), RewriteSem.v / StmtSem.v as the meaning of the fragment, node 20 as reference engine."),
     },
     "C05": {
         "engine": "SvgPath", "design_ref": "DESIGN.md section 4 / C05",
